@@ -24,7 +24,7 @@ def correspond(opname, n, seed, corpus=None, jobs=None):
             if op.nontrivial(inp):
                 nontrivial += 1
     t0 = time.time()
-    shard = {"vocab": 6, "tok_roundtrip": 24, "tok_stateful": 24, "tok_stream": 24, "history": 16}.get(opname, 64)
+    shard = {"vocab": 6, "tok_roundtrip": 24, "tok_stateful": 24, "tok_stream": 24, "history": 16, "composition": 12}.get(opname, 64)
     mism = coqrun.run_cases(cases, tag=opname, jobs=jobs, shard=shard)
     dis = [{"id": cid, "input": expected[cid][0], "impl": expected[cid][1], "model": got} for cid, got in mism.items()]
     return {"op": opname, "evaluations": len(cases), "distinct": len(seen), "distinct_nontrivial": nontrivial,
